@@ -9,6 +9,6 @@ go build -o .build/owcheck ./cmd/owcheck || exit 1
 (cd /repo && go build -buildmode=c-shared -o /verif/.build/libopenwater.so ./libopenwater) || exit 1
 gcc -O1 -o .build/cabi_driver cabi/driver.c -ldl || exit 1
 echo setup: plain builds ok
-./scripts/sched_build.sh >/dev/null || exit 1
-./scripts/owsim_build.sh >/dev/null || exit 1
+./scripts/sched_build.sh C05 >/dev/null || exit 1
+./scripts/owsim_build.sh C05 >/dev/null || exit 1
 echo setup: instrumented builds ok
